@@ -52,11 +52,11 @@ pub assume_specification<'a, T: Copy> [Option::<&'a T>::copied] (o: Option<&'a T
 
 //@type ERR Result
 
-//@struct POS LineColumn derive=Clone,Copy
+//@struct POS LineColumn derive=Clone,Copy,PartialEq,Eq
 //@end
-//@struct POS Position derive=Clone,Copy
+//@struct POS Position derive=Clone,Copy,PartialEq,Eq
 //@end
-//@struct POS SourceSpan derive=Clone,Copy
+//@struct POS SourceSpan derive=Clone,Copy,PartialEq,Eq
 //@end
 
 //@trait INP Input methods=position_after
